@@ -1,7 +1,7 @@
 (* C02 — the invariant [orep] implies that the executable abstraction [abs] reads the denoted value
    (in particular the value is acyclic), and the end-user form of the update theorem. *)
 From Coq Require Import List ZArith NArith Bool Lia.
-From Verif Require Import c02.Path c02.PathProofs c02.HeapPath c02.HeapInv c02.HeapProofs.
+From Verif Require Import c02.Path c02.PathProofs c02.HeapPath c02.HeapInv c02.HeapProofs c02.HeapSlice.
 Import ListNotations.
 Open Scope nat_scope.
 
@@ -67,19 +67,19 @@ Qed.
 
 (* abs_update: update refines Path.setpath, frames every frozen value, builds no cycle, keeps the invariant *)
 Theorem abs_update : forall p h ps v j fp n jn,
-  alloc_wf ps -> orep h ps j v fp -> NoDup fp -> frep h ps jn n -> no_slice p ->
+  alloc_wf ps -> orep h ps j v fp -> NoDup fp -> frep h ps jn n -> ok_path p ->
   match setpath j p jn with
-  | None => update as_is h (Some ps) v p n = None
+  | None => update current h (Some ps) v p n = None
   | Some j' =>
       exists h' ps' u fp',
-        update as_is h (Some ps) v p n = Some (h', Some ps', u) /\
+        update current h (Some ps) v p n = Some (h', Some ps', u) /\
         (forall fuel, depth j' < fuel -> abs fuel h' u = Some j') /\
         (forall jx x, frep h ps jx x -> frep h' ps' jx x /\ forall fuel, depth jx < fuel -> abs fuel h' x = Some jx) /\
         orep h' ps' j' u fp' /\ NoDup fp' /\ alloc_wf ps'
   end.
 Proof.
   intros p h ps v j fp n jn Hwf Hr ND Hn Hns. unfold setpath.
-  pose proof (update_sound p Hns h ps v j fp n jn Hwf Hr ND Hn) as H.
+  pose proof (update_sound_ok current p Hns h ps v j fp n jn Hwf Hr ND Hn) as H.
   destruct (Path.update j p jn) as [j'|]; auto.
   destruct H as (h' & ps' & u & fp' & Hu & Hr' & ND' & Hpost).
   exists h', ps', u, fp'. split; auto. split. { intros. eapply orep_abs; eauto. }
